@@ -116,4 +116,27 @@ PROPS = {
             "easing powers > 0; mapping input range non-degenerate (in0 != in1)",
         ],
     },
+    "C05": {
+        "suites": [{"name": "clock", "quick": 3000, "thorough": 60000},
+                   {"name": "clocksys", "quick": 2500, "thorough": 40000},
+                   {"name": "clocktear", "quick": 1500, "thorough": 30000}],
+        "level_text": "Lean theorems about the models of clock.rs / clock/handle.rs, of one renderer chunk (modulators, clocks in "
+                      "self-referential storage, clock-gated sounds) and of the two-word time protocol: exact accumulation "
+                      "t0 + v*sum(dt) with fraction in [0,1) for every partition and every sufficient fuel, pause freezes, stop resets, "
+                      "the speed parameter follows C06 with the clock's update as time base, a consumer of the mixer pass starts in "
+                      "the first chunk at whose end the clock is ticking and at/after the target (for all histories), missing clock "
+                      "cancels, modulators and earlier-keyed clocks see the clock one chunk behind, a speed tween on the clock's own "
+                      "time never fires, and for handle reads a proved NEGATION of monotone/untorn reads (explicit interleaving) with "
+                      "the true weaker invariant; the same definitions run as a Float twin and agree bit-for-bit with kira::Clock "
+                      "(hooks), with AudioManager-level runs (public API, spy sound) and with real threads stepped through yield points",
+        "level_note": "theorems over ideal real arithmetic; handle-read claims over sequentially consistent interleavings of the "
+                      "atomic steps; time-read monotonicity is proved FALSE of the current code (known findings), the weaker statement "
+                      "is C05_time_reads_partial; tie to the code = differential correspondence (three suites) + implementation oracles",
+        "assumptions": [
+            "update steps dt >= 0; clock speed >= 0 ticks per second and not SecondsPerTick(0) (the real tick loop never ends there)",
+            "u64 tick counts modelled as unbounded naturals; resource capacities not exhausted; ids are creation indices",
+            "atomics are SeqCst: interleavings of atomic steps (no weak-memory reorderings)",
+            "the three command slots of a clock are last-write-wins cells read once per on_start_processing (property C07)",
+        ],
+    },
 }
